@@ -29,7 +29,9 @@ fn gen_program(rng: &mut Rng, ctx: &gen::Ctx, logging: bool) -> (String, Program
         let src = {
             let mut g = Gen::new(rng, k, ctx);
             let d = 1 + g.rng.below(4);
-            match g.rng.below(10) {
+            match g.rng.below(11) {
+                10 => ["size(vs1)", "size(vl1) + size(vs2)", "max(vl1 + [1]) + 1", "string(vi1) + vs1", "vs1.size()", "vl2.map(x, size(x))", "int(vs1.size())", "min([size(vs1), size(vs2)])",
+                       "vs1.startsWith(string(vi1))", "[vs1, vs2].map(s, s.size())"][g.rng.below(10)].to_string(),
                 8 => ["vl1.map(vl1, vl1 * 2)", "vl1.filter(vl1, vl1 > 1)", "vl2.all(vl2, vl2 != '')", "vl1.map(x, x * 2)", "[1, 2].map(x, x + 1)", "vl3.map(vl3, vl3.map(vl3, vl3))",
                       "vm1.map(vm1, vm1)", "vl1.exists(vl1, vl1 == 1)", "[vl1].map(vl1, vl1)", "vl1.map(vi1, vi1)", "has(vm1.a) ? vm1.a : 0", "vl2.map(vs1, vs1 + vs1)"][g.rng.below(12)].to_string(),
                 9 => {
@@ -90,6 +92,12 @@ pub fn histories(seed: u64, count: usize, out: &mut dyn Write) -> usize {
         let log = zoo::new_log();
         let mut ctx = Context::default();
         zoo::register(&mut ctx, &log);
+        // every other history registers host functions under built-ins' names: what a call resolves to must not
+        // change from one execution to the next
+        let overrides: Vec<String> = if _h % 2 == 1 { vec!["size".to_string(), "string".to_string()] } else { vec![] };
+        for o in &overrides {
+            zoo::register_override(&mut ctx, &log, o);
+        }
         for (n, v) in &vars {
             ctx.add_variable_from_value(n.clone(), v.clone());
         }
@@ -130,7 +138,7 @@ pub fn histories(seed: u64, count: usize, out: &mut dyn Write) -> usize {
             let mut held_json: Vec<J> = held.iter().map(|(first, v)| json!([first, enc::value(v)])).collect();
             held_json.extend(shadow_held);
             id += 1;
-            writeln!(out, "{}", json!({"ev": "case", "id": id, "src": src, "ast": ast, "vars": eff_json, "vars_before": vars_json, "log": l, "out": o, "vars_after": after, "held": held_json})).unwrap();
+            writeln!(out, "{}", json!({"ev": "case", "id": id, "src": src, "ast": ast, "vars": eff_json, "vars_before": vars_json, "log": l, "out": o, "vars_after": after, "held": held_json, "overrides": overrides})).unwrap();
             if let Some(v) = result_val {
                 if held.len() < 40 {
                     held.push((enc::value(&v), v));
